@@ -75,11 +75,18 @@ def encF (T : Int) : Rat := fmul (fdiv T 1000000) 1000000
 
 /-- `datetime.fromtimestamp(m / 1e6, tz)` as µs since the epoch (`_PyTime_ObjectToTimeval` with
     `ROUND_HALF_EVEN`): one division, `modf`, one product, round-half-even. For `m ≥ 0`. -/
-def decF (m : Rat) : Int :=
+def decFNonneg (m : Rat) : Int :=
   let r := fl (m / 1000000)
   let ip := r.floor
   let fp := r - ip
   let p := fl (fp * 1000000)
   ip * 1000000 + rne p
+
+/-- … for every `m`: C's `modf` splits towards zero and the division, the product and the
+    half-even rounding are all odd functions of their argument (`_PyTime_DoubleToDenominator` only
+    renormalises a negative fraction afterwards), so an instant before the epoch decodes to the
+    mirror image of its absolute value. (Compared with the hardware on every C13 run, negative
+    readings included.) -/
+def decF (m : Rat) : Int := if m < 0 then -(decFNonneg (-m)) else decFNonneg m
 
 end Aw.Fl
